@@ -25,8 +25,8 @@ class FastNetNanoCommunicator(FastNetNeuronCommunicator):
 
     def _process_sa(self, msg):
         # Nano has slightly different variation of this value, get it into a format the base can process
-        _, _, _, raw_switch_data = msg.split(',')
-        super()._process_sa(f'00,{raw_switch_data}')
+        _, _, byte_count, raw_switch_data = msg.split(',')
+        super()._process_sa(f'{byte_count},{raw_switch_data}')
 
     def _process_boot_message(self, msg):
         if msg == '00':  # rebooting
